@@ -94,3 +94,12 @@ let rnd_weighted st (l : (int * 'a) list) =
   !res
 
 let split_ws s = List.filter (fun x -> x <> "") (String.split_on_char ' ' s)
+
+(* deterministic test payloads and the FNV-1a hash shared with the Go harness (util.go) *)
+let pay_byte seed i = Char.chr ((seed * 131 + i * 7 + (i lsr 8) * 13 + (i lsr 16)) land 255)
+let payload seed n = String.init n (pay_byte seed)
+let fnv64 (s : string) =
+  let h = ref 0xcbf29ce484222325L in
+  String.iter (fun c -> h := Int64.mul (Int64.logxor !h (Int64.of_int (Char.code c))) 0x100000001b3L) s;
+  Printf.sprintf "%Lx" !h
+let align sz unit = if sz < unit then unit else (sz + unit - 1) / unit * unit
